@@ -150,6 +150,9 @@ def case_key(case):
 
 
 def main():
+    # the harness itself walks deeply nested case descriptions (trees of depth 260+) recursively: shrinking, copying,
+    # JSON. The implementation under test runs in a separate worker process with the interpreter's default limit.
+    sys.setrecursionlimit(20000)
     ap = argparse.ArgumentParser()
     ap.add_argument("prop")
     ap.add_argument("--tier", default=os.environ.get("VERIF_TIER", "quick"), choices=["quick", "thorough"])
@@ -176,6 +179,8 @@ def main():
         changed, failures = extract.regenerate(args.repo)
         if changed:
             notes.append("Generated.lean rewritten from %s" % args.repo)
+        for g, msg in sorted(extract.PROBED.items()):
+            notes.append("extractor: group '%s' not found in the syntax tree (%s); values read back by running the code (probe.py)" % (g, msg))
         for g, msg in sorted(failures.items()):
             # a constant group the extractor no longer understands is a broken tie of the properties that read it
             if pid in extract.GROUPS[g][1]:
